@@ -191,7 +191,7 @@ def data_cases(tier):
 
 
 ASCII = [chr(c) for c in range(0x20, 0x7f)]
-NONASCII = ['é', 'ü', 'ß', '€', '日', '\U0001f600']
+NONASCII = ['é', 'ü', 'ß', '€', '日', '\U0001f600', '\u2028', '\u2029', '\x85', '\u00a0', '\u200b']     # incl. characters str.splitlines() treats as line breaks and odd blanks
 ESC = ['\\\\', '\\n', '\\t', '\\r', '\\0', "\\'", '\\"', '\\x41', '\\x7f', '\\xe9', '\\u00e9', '\\u20ac', '\\u65e5']
 
 
